@@ -34,6 +34,7 @@ type queryResult struct {
 	entityAt  []ecs.Entity
 	exhausted bool
 	closed    bool
+	counted   bool // holds a lock bit as far as the harness knows (see attempts)
 	badRead   string
 	writes    []write
 }
@@ -140,6 +141,8 @@ func (se *Session) RunRound(r *sim.ParRound, raceLog string) []int16 {
 		tasks[i] = t
 	}
 	before := fileSize(raceLog)
+	resetAttempts()
+	attemptsAdd(s.LockDepth()) // queries the engine-A part of the session holds open across the round
 	setup(n, r.Seed, r.Stay, r.Schedule)
 	prevYield := ecs.Verif.Yield
 	defer func() { ecs.Verif.Yield = prevYield }()
@@ -216,6 +219,9 @@ func (se *Session) RunRound(r *sim.ParRound, raceLog string) []int16 {
 			}
 		}
 	}
+	if bad := resetAttempts(); bad > 0 {
+		se.violate("par.capacity", "refused_below_limit", "%d queries were refused with the run-out-of-bits panic although fewer than 64 other queries could have been open at that moment", bad)
+	}
 	if s.W.IsLocked() {
 		se.violate("par.unlocked", "locked_after_join", "world still locked after all %d goroutines finished or closed their queries", n)
 		// release the model's view as well: the session cannot continue
@@ -236,7 +242,7 @@ func (t *task) run() {
 			for _, qq := range t.extra {
 				func() {
 					defer func() { _ = recover() }()
-					qq.Close()
+					closeQuery(qq)
 				}()
 			}
 			t.extra = nil
@@ -255,6 +261,10 @@ func (t *task) run() {
 				q.Close()
 				res.closed = true
 			}
+			if res != nil && res.counted {
+				attemptsAdd(-1)
+				res.counted = false
+			}
 			qi++
 			if qi >= len(t.plans) {
 				return
@@ -267,6 +277,8 @@ func (t *task) run() {
 				// all 64 lock bits are taken by other goroutines' queries at this moment
 				t.rejected++
 				res.closed = true
+			} else {
+				res.counted = true
 			}
 		case "count":
 			if q != nil && !res.exhausted && !res.closed {
@@ -287,6 +299,10 @@ func (t *task) run() {
 				}
 				if !q.Next() {
 					res.exhausted = true
+					if res.counted {
+						attemptsAdd(-1)
+						res.counted = false
+					}
 					break
 				}
 				h := q.Entity()
@@ -313,6 +329,10 @@ func (t *task) run() {
 				if !res.exhausted {
 					res.closed = true
 				}
+				if res.counted {
+					attemptsAdd(-1)
+					res.counted = false
+				}
 			}
 		case "gc":
 			runtime.GC()
@@ -335,18 +355,67 @@ func (t *task) run() {
 		q.Close()
 		res.closed = true
 	}
+	if res != nil && res.counted {
+		attemptsAdd(-1)
+		res.counted = false
+	}
 	for _, qq := range t.extra {
 		Yield()
-		qq.Close()
+		closeQuery(qq)
 	}
 	t.extra = nil
 }
 
+// attempts is an upper bound of the number of lock bits in use: it is raised before a query is
+// requested and lowered after its Close returned (or after it was rejected or finished).
+// Accessed by the simulated goroutines one at a time; kept out of the race detector's view
+// like the scheduler state, so that it adds no happens-before edges.
+var attempts, badRejections int
+
+// attemptsLog records every value attempts took in this round, so that a task can ask for
+// the maximum over the time its own request was in flight.
+var attemptsLog []int
+
+//go:norace
+func attemptsAdd(d int) int {
+	attempts += d
+	attemptsLog = append(attemptsLog, attempts)
+	return len(attemptsLog) - 1
+}
+
+//go:norace
+func attemptsMaxSince(pos int) int {
+	m := 0
+	for _, v := range attemptsLog[pos:] {
+		if v > m {
+			m = v
+		}
+	}
+	return m
+}
+
+//go:norace
+func noteBadRejection() { badRejections++ }
+
+//go:norace
+func resetAttempts() (bad int) {
+	bad = badRejections
+	attempts, badRejections = 0, 0
+	attemptsLog = attemptsLog[:0]
+	return bad
+}
+
 // openOrRejected opens one more query; nil if it was rejected because all 64 lock bits are in use.
 func openOrRejected(pl *queryPlan) (q sim.Querier) {
+	pos := attemptsAdd(1)
 	defer func() {
 		if r := recover(); r != nil {
 			if strings.Contains(fmt.Sprint(r), "run out of the maximum of") {
+				if attemptsMaxSince(pos) <= 64 {
+					// at no moment while this request was in flight can 64 other queries have been open
+					noteBadRejection()
+				}
+				attemptsAdd(-1)
 				q = nil
 				return
 			}
@@ -354,6 +423,12 @@ func openOrRejected(pl *queryPlan) (q sim.Querier) {
 		}
 	}()
 	return pl.pf.F.Query(pl.rels)
+}
+
+// closeQuery closes a query that was opened with openOrRejected.
+func closeQuery(q sim.Querier) {
+	q.Close()
+	attemptsAdd(-1)
 }
 
 func fileSize(path string) int64 {
